@@ -24,3 +24,8 @@ _reg(SchedProp('C10', ['Ea.C10.callbacks_only_log', 'Ea.C10.wakeup_keeps_invaria
 from props_prod import ProdProp  # noqa: E402
 
 _reg(ProdProp('C04', ['Ea.C04.getNext_gt', 'Ea.C04.query_gt', 'Ea.C04.loop_bound_matches']))
+_reg(ProdProp('C05', ['Ea.C05.getNext_least', 'Ea.C05.result_passes_filter', 'Ea.intervalNext_least', 'Ea.timeNext_least',
+                      'Ea.groupNext_least']))
+_reg(ProdProp('C06', ['Ea.C06.replace_unique', 'Ea.C06.replace_gap_skip', 'Ea.C06.replace_gap_earlier_later',
+                      'Ea.C06.replace_gap_after', 'Ea.C06.replace_fold', 'Ea.C06.time_once_per_day',
+                      'Ea.C06.after_tries_matches', 'Ea.Zone.resolve_unique', 'Ea.Zone.resolve_fold', 'Ea.Zone.resolve_gap']))
